@@ -161,6 +161,13 @@ func htmlBoundaryInputs() []string {
 				add(v + strings.Repeat("a", n-len(v)))
 			}
 		}
+		// numeric character references at every decoder limit inside URL attribute values, not in leading position
+		for _, ref := range decoderBoundaryRefs() {
+			add("<a href=\"x" + ref + "\">")
+			add("<a href=" + ref + "avascript:x>")
+			add("' src='j" + ref + "' ")
+			add("<a href=\"" + ref + "avascript:alert(1)\">")
+		}
 		// CDATA opener case variants in front of vectors
 		for _, cd := range []string{"<![cdata[", "<![CData[", "<![cDATA[", "<![CDATA["} {
 			for _, v := range []string{"<script>alert(1)</script>", " a='><script>alert(1)</script>'", ">x<iframe>", "]]><script>"} {
